@@ -489,7 +489,7 @@ func TestCheck(t *testing.T) {
 	ev.Run(t, ev.Spec[Case]{
 		ID:    "C18",
 		Level: "exploration",
-		Rule: "operation histories of 3-13 steps on one module set: load(next text of a pool of mutually consistent single-(sub)module texts from the schema model - a quarter of the pools also hold 2-3 revisions of one module with modules importing it with and without revision-date, using its typedef, grouping, identity and augmenting it - in a random order so that imports and includes are often not yet loaded and later revisions arrive after a processing run; a fifth of the pools consist of the wrong, cyclic and mutated texts of C01's generators, where a pool text rejected at load counts as a failed load), load(bad text: syntax error; module or submodule rejected by a later statement after an inner node with a typedef was already built; a duplicate of a loaded text), process, read (accessors and path lookups that create rpc input/output on demand). " +
+		Rule: "operation histories of 3-17 steps on one module set: load(next text of a pool of mutually consistent single-(sub)module texts from the schema model - a quarter of the pools also hold 2-3 revisions of one module (a quarter of these families without any typedef and alone in the pool; with a submodule in a third, whose include the latest revision may drop while defining the submodule's identity itself) with a base module and modules importing the family with and without revision-date, reaching its typedef, grouping and identity through a drawn selection of shapes (typedef chains, union typedefs, nested and inline unions, scoped typedefs, rpc input/output, choice, notification, augments); the family texts come first in two thirds of these pools - in a random order so that imports and includes are often not yet loaded and later revisions arrive after a processing run; a fifth of the pools consist of the wrong, cyclic and mutated texts of C01's generators, where a pool text rejected at load counts as a failed load), load(bad text: syntax error; module or submodule rejected by a later statement after an inner node with a typedef was already built; a duplicate of a loaded text), process, read (accessors and path lookups that create rpc input/output on demand). " +
 			"Oracle (model = list of accepted good texts): after every process the error list and, when it is empty, the complete dump (trees of all modules and submodules with types, attributes and identity value lists) equal those of a fresh set into which exactly the accepted texts were loaded in the same order and processed once; two consecutive process runs give equal results; every bad load returns an error. " +
 			"Non-trivial = a process after a failed load, or a process after a load that followed an earlier process; distinct by (texts, operation sequence)",
 		Assumptions: []string{
